@@ -28,7 +28,7 @@ func init() {
 		Assumptions: []string{"R4 hierarchy: primitives specialise per the statement; a datatype or nested component carrying modifierExtension is a BackboneElement; Bundle, Binary, Parameters derive directly from Resource; Age/Count/Distance/Duration/MoneyQuantity/SimpleQuantity derive from Quantity",
 			"xhtml elements are only placed below Element (no specifier names the type itself); ReferenceId nodes are not typed by the model and are skipped"},
 		Run:    runC12,
-		Checks: map[string]func(*core.Env, []json.RawMessage){"resource": replayC12, "sys": replayC12Sys, "computed": func(env *core.Env, a []json.RawMessage) { c12Computed(env) }},
+		Checks: map[string]func(*core.Env, []json.RawMessage){"resource": replayC12, "sys": replayC12Sys, "computed": func(env *core.Env, a []json.RawMessage) { c12Computed(env) }, "selection": func(env *core.Env, a []json.RawMessage) { c12Selection(env) }},
 		Threshold: func(m *core.Merged) []string {
 			var r []string
 			for _, k := range []string{"is-true", "is-false", "as-identity", "as-empty", "kind:resource", "kind:datatype", "kind:primitive", "kind:code", "kind:backbone", "via-path", "via-choice-wrapper", "system-value", "invalid-specifier"} {
@@ -345,7 +345,7 @@ func c12Sys(env *core.Env) {
 		// every conversion function yields its target type, whatever the spelling of the input
 		{"'2020-01'.toDateTime()", "DateTime"}, {"'2020'.toDateTime()", "DateTime"}, {"'2020-01-02'.toDateTime()", "DateTime"}, {"'2020-01-02T10:00:00Z'.toDateTime()", "DateTime"}, {"@2020-01.toDateTime()", "DateTime"}, {"'2020-01'.toDate()", "Date"}, {"@2020-01-02T10:00:00Z.toDate()", "Date"},
 		{"'10:00'.toTime()", "Time"}, {"'5 mg'.toQuantity()", "Quantity"}, {"5.toQuantity()", "Quantity"}, {"5.5.toQuantity('mg')", "Quantity"}, {"'1'.toInteger()", "Integer"}, {"true.toInteger()", "Integer"}, {"1.toDecimal()", "Decimal"}, {"true.toDecimal()", "Decimal"}, {"1.toString()", "String"}, {"@2020.toString()", "String"},
-		{"(1 'mg').toString()", "String"}, {"'true'.toBoolean()", "Boolean"}, {"1.toBoolean()", "Boolean"}, {"1.0.toBoolean()", "Boolean"}, {"(@2020-01-31 + 1 month)", "Date"}, {"(@2020T + 1 year)", "DateTime"}, {"(@T10 + 1 hour)", "Time"}, {"(1 'mg' + 1 'mg')", "Quantity"}, {"(1 / 2)", "Decimal"}, {"(4 div 2)", "Integer"}, {"(4.0 div 2)", "Integer"}, {"(5 mod 2)", "Integer"}, {"(5.5 mod 2)", "Decimal"}, {"('a' & 'b')", "String"}, {"(1 < 2)", "Boolean"},
+		{"(1 'mg').toString()", "String"}, {"'true'.toBoolean()", "Boolean"}, {"1.toBoolean()", "Boolean"}, {"1.0.toBoolean()", "Boolean"}, {"(@2020-01-31 + 1 month)", "Date"}, {"(@2020T + 1 year)", "DateTime"}, {"(@T10 + 1 hour)", "Time"}, {"(1 'mg' + 1 'mg')", "Quantity"}, {"(1 / 2)", "Decimal"}, {"(6 / 3)", "Decimal"}, {"(4 / 2)", "Decimal"}, {"(0 / 5)", "Decimal"}, {"(6.0 / 3)", "Decimal"}, {"(2 * 3)", "Integer"}, {"(2 * 3.0)", "Decimal"}, {"(2.5 + 2.5)", "Decimal"}, {"(5 - 5.0)", "Decimal"}, {"(1.5).round()", "Decimal"}, {"(7 div 7)", "Integer"}, {"(7.0 mod 7)", "Decimal"}, {"(4 div 2)", "Integer"}, {"(4.0 div 2)", "Integer"}, {"(5 mod 2)", "Integer"}, {"(5.5 mod 2)", "Decimal"}, {"('a' & 'b')", "String"}, {"(1 < 2)", "Boolean"},
 	}
 	for _, v := range vals {
 		env.Cover("system-value")
@@ -490,8 +490,51 @@ func c12Computed(env *core.Env) {
 	}
 }
 
+// c12Selection: functions that select items (first, last, tail, skip, take, where, select($this), distinct, exclude)
+// return the items themselves: an element stays an element of its FHIR type, also when it occurs several times.
+func c12Selection(env *core.Env) {
+	defer env.In("selection")()
+	env.Case()
+	for _, el := range []proto.Message{&dtpb.String{Value: "Ann"}, &dtpb.Code{Value: "c"}, &dtpb.Integer{Value: 3}, &dtpb.Decimal{Value: "1.50"}, &dtpb.Boolean{Value: true}, &dtpb.Uri{Value: "http://u"}, &dtpb.Date{ValueUs: 1577836800000000, Timezone: "UTC", Precision: dtpb.Date_DAY},
+		&dtpb.HumanName{Family: &dtpb.String{Value: "F"}}, &dtpb.Quantity{Value: &dtpb.Decimal{Value: "1"}, Unit: &dtpb.String{Value: "mg"}, Code: &dtpb.Code{Value: "mg"}}} {
+		coll := system.Collection{el, proto.Clone(el), el, proto.Clone(el)}
+		declared, ok := model.DeclaredType(el.ProtoReflect().Descriptor())
+		if !ok {
+			continue
+		}
+		eo := evalopts.EnvVariable("d", coll)
+		for _, f := range []string{"%d.first()", "%d.last()", "%d.tail().first()", "%d.skip(1).first()", "%d.take(2).last()", "%d.where(true).first()", "%d.select($this).last()", "%d.distinct().first()", "%d.distinct().last()", "%d[1]", "%d.exclude({}).first()", "iif(true, %d).first()", "%d.distinct().tail().first() | %d.distinct().first()"} {
+			r := c12Eval(env, f, nil, eo)
+			if r.Kind == "cerror" {
+				continue
+			}
+			env.Cover("selection-keeps-element")
+			if r.IsPanic() {
+				env.Violatef(fx.PanicSig("C12", r), "`%s` on four equal %s elements => %s", f, declared, r.Short())
+				continue
+			}
+			if !r.IsValue() || len(r.Raw) != 1 {
+				continue
+			}
+			if m, isElem := r.Raw[0].(proto.Message); !isElem || m.ProtoReflect().Descriptor() != el.ProtoReflect().Descriptor() {
+				env.Violatef("C12/selection/not-the-element/"+strings.ReplaceAll(f, "%d", "d"), "`%s` on a collection holding a %s element four times yields %s, not an element of that type", f, declared, trunc(r.Short(), 80))
+				continue
+			}
+			ri := c12Eval(env, "("+f+") is "+declared.Name, nil, eo)
+			rs := c12Eval(env, "("+f+") is System.Any", nil, eo)
+			if ri.Bool3() != "true" || rs.Bool3() != "false" {
+				env.Violatef("C12/selection/type-lost/"+strings.ReplaceAll(f, "%d", "d"), "`(%s) is %s` = %s, `is System.Any` = %s for a collection of %s elements", f, declared.Name, trunc(ri.Short(), 40), trunc(rs.Short(), 40), declared)
+			}
+		}
+	}
+}
+
 func runC12(env *core.Env) {
 	n := 0
+	n++
+	if env.Mine(n + 2) {
+		c12Selection(env)
+	}
 	if env.Mine(n) {
 		c12Sys(env)
 	}
